@@ -840,6 +840,10 @@ func main() {
 		exploreRead(slot, t.op, t.inp, t.base, bound)
 		atomic.AddInt64(&done, 1)
 	})
+	if os.Getenv("C09_ONLY") == "" {
+		concreteFamily(rtasks)
+		scanFamily()
+	}
 	if atomic.LoadInt32(&capped) != 0 {
 		rep.Cap("deadline reached: %d of %d (read operation, input) pairs fully explored; all %d write pairs complete", done, len(rtasks), len(wtasks))
 	}
@@ -992,6 +996,31 @@ func replay(genNodes int) {
 	var c Case
 	if err := json.Unmarshal(rp.Case, &c); err != nil {
 		engine.HarnessError("bad case: %v", err)
+	}
+	if c.Side == "concrete" || c.Side == "scan" {
+		var cc concreteCase
+		json.Unmarshal(rp.Case, &cc)
+		if cc.Side == "scan" {
+			scanFamily()
+			rep.Finish()
+		}
+		ops, _ := allReadOps(0)
+		data, _ := hex.DecodeString(cc.Hex)
+		for _, op := range ops {
+			if op.Name == cc.Op {
+				inp := &Input{ID: cc.Input, Data: data}
+				b, why := makeBaseline(op, inp)
+				if b == nil {
+					engine.HarnessError("replay: contiguous run fails: %s", why)
+				}
+				for j := 0; j < 5; j++ {
+					judgeConcrete(op, inp, b, cc.Source, cc.K)
+				}
+				rep.Eval(5)
+				rep.Finish()
+			}
+		}
+		engine.HarnessError("replay: unknown read operation %q", cc.Op)
 	}
 	if c.Side == "huge" {
 		var h hugeCase
